@@ -372,8 +372,9 @@ Judge_acyclic_unroll_cyclic(e) ==
      \cup (IF InputNames(c) \subseteq InputNames(r) THEN {} ELSE {"inputs_lost"})
      \cup (IF ~r.acyc \/ c.n > MaxBits \/ OutputNames(r) # OutputNames(c) THEN {}
            ELSE IF HintUsable(c, A) /\ (\A a \in A : HasName(c, AuxHint(c, A)[a]))
-                   /\ StableOK(c, r, [a \in A |-> Idx(c, AuxHint(c, A)[a])]) THEN {}
-           ELSE IF Cardinality(A) <= 3 /\ (\E f \in [A -> 1..c.n] : StableOK(c, r, f)) THEN {}
+                THEN (IF StableOK(c, r, [a \in A |-> Idx(c, AuxHint(c, A)[a])]) THEN {} ELSE {"stable_states_not_preserved"})
+           \* the naming hint cannot be read: any attribution of the auxiliary inputs to nodes will do (small cases only)
+           ELSE IF Cardinality(A) <= 2 /\ c.n <= 10 /\ (\E f \in [A -> 1..c.n] : StableOK(c, r, f)) THEN {}
            ELSE {"stable_states_not_preserved"})
 
 (* C17  supergates(c): e.c (fan-in <= 2, so that the fan-in-limited circuit is c itself), e.L (sequence of indexed
